@@ -3065,6 +3065,35 @@ void chk_single_pass(seq const &r)
       want.push_back(v * 10);
     expect(seq(got.begin(), got.end()), want, "map", "istream_iterator", "value");
   }
+  {
+    // a target with reserve() and a source without size(): the source is walked ONCE (counting it first would use it up)
+    lib();
+    unsigned calls = 0;
+    auto const got = fcppt::algorithm::map_optional<std::vector<int>>(fresh(is), [&calls](int const &e) {
+      ++calls;
+      return fcppt::optional::make_if(e != 1, [e] { return e + 100; });
+    });
+    seq want;
+    for (int v : r)
+      if (v != 1)
+        want.push_back(v + 100);
+    expect(seq(got.begin(), got.end()), want, "map_optional", "istream_iterator", "value");
+    expect(calls, static_cast<unsigned>(r.size()), "map_optional", "istream_iterator", "calls");
+    std::deque<int> q(r.begin(), r.end());
+    lib();
+    auto const got_q = fcppt::algorithm::map_optional<std::vector<int>>(queue_range{&q}, [](int const &e) { return fcppt::optional::make_if(e != 1, [e] { return e + 100; }); });
+    expect(seq(got_q.begin(), got_q.end()), want, "map_optional", "shared-queue", "value");
+    std::deque<int> q2(r.begin(), r.end());
+    lib();
+    auto const got_c = fcppt::algorithm::map_concat<std::vector<int>>(queue_range{&q2}, [](int const &e) { return std::vector<int>{e, e}; });
+    seq want_c;
+    for (int v : r)
+    {
+      want_c.push_back(v);
+      want_c.push_back(v);
+    }
+    expect(seq(got_c.begin(), got_c.end()), want_c, "map_concat", "shared-queue", "value");
+  }
   for (int probe = 0; probe < 3; ++probe)
   {
     lib();
@@ -3101,6 +3130,27 @@ void chk_single_pass(seq const &r)
   VF_COUNT("judged/single-pass-input-ranges");
   finish();
 }
+// fold_break whose step hands the state back BY REFERENCE inside the pair (an in-place accumulator: std::pair<loop, State &&>)
+void chk_fold_break_state_by_reference(seq const &r)
+{
+  if (!start("fold_break-state-by-reference", r))
+    return;
+  for (std::size_t k = 0; k <= r.size(); ++k)
+  {
+    std::size_t i = 0;
+    lib();
+    std::vector<int> const got = fcppt::algorithm::fold_break(r, std::vector<int>{}, [&](int const e, std::vector<int> &&st) {
+      st.push_back(e * e);
+      return std::pair<loop, std::vector<int> &&>(i++ == k ? loop::break_ : loop::continue_, std::move(st));
+    });
+    seq want;
+    for (std::size_t m = 0; m < std::min(k + 1, r.size()); ++m)
+      want.push_back(r[m] * r[m]);
+    expect(seq(got.begin(), got.end()), want, "fold_break", "state-by-reference", "value", par("break-at", static_cast<unsigned>(k)));
+  }
+  VF_COUNT("judged/fold_break-state-by-reference");
+  finish();
+}
 
 void chk_narrow_int_ranges()
 {
@@ -3133,6 +3183,7 @@ void vf_slice_13()
   }, true);
   chk_narrow_int_ranges();
   for_seqs("algorithm/single-pass-input-ranges", std::min(L(), 5U), [](seq const &s) { chk_single_pass(s); });
+  for_seqs("algorithm/fold_break-state-by-reference", std::min(L(), 5U), [](seq const &s) { chk_fold_break_state_by_reference(s); });
   run(kinds<k_vec, k_deque>{}, "container/at_optional", L(), LIFT(chk_at_optional));
   run_statics("container/at_optional", LIFT(chk_at_optional));
 }
